@@ -254,7 +254,9 @@ def gen_case(rng, thorough=False):
                 used_heads.append(text)
             lines.append("remark " + text)
         elif roll < 0.4:
-            lines.append(f"remark plain{idx} {rng.choice(['note', '=', 'x ='])}")
+            stripped = prefix.strip()
+            lines.append("remark " + rng.choice([f"plain{idx} note", f"plain{idx} =", f"{stripped * 5}{idx}", f"{stripped}end-of-{idx}",
+                                                 f"{stripped}", f"x {prefix}{idx}"]))
         else:
             word = "object-group" if platform == "ios" else "addrgroup"
             proto = rng.choice(["tcp", "udp"])
